@@ -21,7 +21,7 @@ Quantifier: {p['quantifier']['text']}
 
 Task: make a small source change (a plausible wrong refactoring, dropped condition, off-by-one, swapped operands, wrong state transition, missing reset, ...) to john30/ebusd under {wt}/src that violates this property while the project still compiles and the existing test suite (ctest above) still passes. The change must need something SPECIFIC to manifest — a particular interleaving or multi-step sequence of bus events, a fault at a particular point, an unusual input, a particular configuration, or two cooperating sites that each look fine alone — not something ordinary use would expose at once. Prefer subtle changes inside the anchored files. Do not add dead code, do not change tests, do not break the build.
 
-Then write a demonstration: a small standalone C++ program (or test) under {wt}/demo/ that links against the built libraries ({wt}/_build/src/lib/ebus/libebus.a, .../src/lib/utils/libutils.a, .../src/lib/ebus/contrib/libebuscontrib.a; include path {wt}/src; the build's config.h is in {wt}/_build; link with -lpthread -lrt -lssl -lcrypto as needed; classes have private members — `#define private public`/`#define protected public` before including headers is fine in a demo; a fake `Transport` subclass (see src/lib/ebus/transport.h) lets you script bytes into a PlainDevice/EnhancedDevice + DirectProtocolHandler, calling handleSend/handleReceive directly or running the thread) and that exits 0 when the property holds for its scenario and non-zero when it is violated. Show that the demo FAILS with your change and PASSES without it (git stash / git diff > patch; git checkout; rebuild; run; re-apply).
+Then write a demonstration: a small standalone C++ program (or test) under {wt}/demo/ that links against the built libraries ({wt}/_build/src/lib/ebus/libebus.a, .../src/lib/utils/libutils.a, .../src/lib/ebus/contrib/libebuscontrib.a; include path {wt}/src; the build's config.h is in {wt}/_build; link with -lpthread -lrt -lssl -lcrypto as needed; classes have private members — `#define private public`/`#define protected public` before including headers is fine in a demo; a fake `Transport` subclass (see src/lib/ebus/transport.h) lets you script bytes into a PlainDevice/EnhancedDevice + DirectProtocolHandler, calling handleSend/handleReceive directly or running the thread) and that exits 0 when the property holds for its scenario and non-zero when it is violated. Show that the demo FAILS with your change and PASSES without it (save the change with `git diff > out/patch.diff`, revert it with `git apply -R out/patch.diff`, rebuild, run, re-apply with `git apply out/patch.diff`; NEVER use `git stash`: the stash is shared by all worktrees of /repo and other agents work in parallel).
 
 Deliver, as files under {wt}/out/: `patch.diff` (git diff of the source change only, relative to the worktree root, applying with `git apply`), the demo source(s) with a `build_and_run.sh` that builds and runs it given the worktree path as $1, and `meta.json` with keys: property ("{prop}"), summary (one paragraph: what was changed and why it violates the property), needs (what specific sequence/input/config is needed to manifest), files_changed, demo_result_with_patch, demo_result_without_patch, tests_pass (true/false). Your final message: the content of meta.json plus the patch. Leave the worktree in place (the lead removes it).
 """
